@@ -321,6 +321,49 @@ def check_block(ctx, case):
         return
     if ids3 != [t.txid().hex() for t in txs]:
         ctx.disc('block.objreader.txids', 'parse_transactions txids differ', case)
+        return
+    # fourth: the one-transaction-per-call readers, alone and mixed with the limited bulk reader; every reader has to
+    # hand out the same transactions (ids and bytes) and leave a block that serialises to the input
+    want_ids = [t.txid().hex() for t in txs]
+    want_raw = [t.serialize() for t in txs]
+    for mode in ('single', 'mixed', 'single_dict'):
+        try:
+            b4 = Block.parse_bytes(raw, parse_transactions=False)
+            got = []
+            if mode == 'single_dict':
+                for _ in range(len(txs) + 1):
+                    d = b4.parse_transaction_dict()
+                    if not d:
+                        break
+                    got.append((d['txid'].hex() if isinstance(d['txid'], bytes) else d['txid'], d['rawtx']))
+                ser4 = None
+            else:
+                if mode == 'mixed':
+                    b4.parse_transactions(limit=1)
+                for _ in range(len(txs) + 1):
+                    if not b4.parse_transaction():
+                        break
+                    if mode == 'mixed':
+                        b4.parse_transactions(limit=1)
+                got = [(t.txid, t.raw()) for t in b4.transactions]
+                ser4 = b4.serialize()
+        except Exception as e:
+            ctx.disc('block.reader_%s.raises' % mode, 'reading the transactions one call at a time (%s) raised %r' %
+                     (mode, e), case)
+            return
+        if [g[0] for g in got] != want_ids:
+            ctx.disc('block.reader_%s.txids' % mode, 'one-call-at-a-time reader (%s) gives ids %r, want %r' %
+                     (mode, [g[0] for g in got][:4], want_ids[:4]), case)
+            return
+        if [g[1] for g in got] != want_raw:
+            k = next(i for i in range(len(got)) if got[i][1] != want_raw[i])
+            ctx.disc('block.reader_%s.rawtx' % mode, 'one-call-at-a-time reader (%s): transaction %d serialises to %s, '
+                     'input bytes %s' % (mode, k, got[k][1].hex()[:200], want_raw[k].hex()[:200]), case)
+            return
+        if ser4 is not None and ser4 != raw:
+            ctx.disc('block.reader_%s.roundtrip' % mode, 'block read one transaction per call (%s) serialises '
+                     'differently from the input' % mode, case)
+            return
 
 
 def check_api(ctx, case):
